@@ -314,7 +314,8 @@ impl CtxCfg {
     /// Random *valid* configuration (1-16 vendor sets of format 0/1, <= 30 types).
     pub fn random(rng: &mut crate::rng::Rng, addr7: bool) -> Self {
         let addr = if addr7 { rng.byte() & 0x7F } else { rng.byte() };
-        let nt = rng.below(31) as usize;
+        // boundary-biased: the extreme legal type counts are as likely as everything between them
+        let nt = if rng.chance(1, 3) { [0usize, 1, 29, 30][rng.below(4) as usize] } else { rng.below(31) as usize };
         let types = rng.bytes(nt);
         let nv = 1 + rng.below(16) as usize;
         let mut vendors = Vec::new();
